@@ -194,7 +194,7 @@ def gen_cases(ctx, reg):
     quick = ctx.tier == "quick"
     transports = QUICK_TRANSPORTS if quick else ALL_TRANSPORTS
     cases = directed_minimal(g)
-    per = {"mock": 260, "tcp": 110, "http": 110} if quick else dict((t, 900 if t == "mock" else 350) for t in transports)
+    per = {"mock": 220, "tcp": 85, "http": 85} if quick else dict((t, 900 if t == "mock" else 350) for t in transports)
     for t in transports:
         for _ in range(per[t]):
             cases.append(g.make("random", t))
